@@ -258,8 +258,17 @@ def _setv(which):
         link = pool.get(e)
         new = None if x is None else pool.get(x)
 
+        # three spellings of the same assignment (e.v1 = x is setattr; the item protocol e["v1"] = x is documented
+        # to do the same); which one is used is a function of the op's content, so replays and shrinking agree
+        spelling = sum(map(ord, f"{e}{x}{which}")) % 3
+
         def t():
-            setattr(link, which, new)
+            if spelling == 0:
+                setattr(link, which, new)
+            elif spelling == 1:
+                link[which] = new
+            else:
+                type(link).__setattr__(link, which, new)
 
         return _wrap(pool, t)
 
